@@ -1,4 +1,4 @@
-import TornadoModel.C06.Roundtrip
+import TornadoModel.C06.Present
 /-!
 C06 — property theorems: HTTP header maps behave as a case-insensitive insertion-ordered multimap.
 Only property theorems and non-vacuity examples live here; helper lemmas are in `Lemmas`, `Norm`, `Refine`.
@@ -67,6 +67,95 @@ theorem deleted_absent (ops : List Op) (n : Str) (h' : Headers) :
     simp [contains, dhas, dget_ddel_same]
   · cases hd
 
+/-- a successful delete from a state related to a multimap lands in a state related to a multimap -/
+theorem delItem_related {h : Headers} {m : Spec.M} (r : R h m) (n : Str) (h' : Headers)
+    (hd : delItem h n = .ok h') : ∃ m', R h' m' := by
+  have := del_refines r n
+  rw [hd] at this
+  unfold Agree at this
+  cases hs : Spec.del m n with
+  | ok m' => rw [hs] at this; exact ⟨m', this⟩
+  | error e => rw [hs] at this; exact this.elim
+
+/-- **Present ⇒ deletable — every way of reporting, every spelling** (uses reachability: stored keys are
+    normalised, the cache is sound).  After any history, if ANY read API reports the name `n` — `n in h`, iteration,
+    `get_all()`, a non-empty `get_list(n)`, or `h[n]` returning a value (answered from the combined-value cache
+    when one is there) — then `del h[n']` succeeds for every spelling `n'` of the name, and afterwards NO read
+    API reports either spelling any more (in particular the cache entry is gone: `h[n]` raises `KeyError`). -/
+theorem reported_deletable (ops : List Op) (n n' : Str) (hn : n.map lowerC = n'.map lowerC)
+    (hr : Reported (run empty ops).1 n) :
+    ∃ h', delItem (run empty ops).1 n' = .ok h' ∧ ¬ Reported h' n ∧ ¬ Reported h' n' := by
+  obtain ⟨_, r⟩ := run_refines R_empty ops
+  have hh := reported_has r n hr
+  have hk : normalize n' = normalize n := (normalize_eq_iff_lower_eq _ _).2 hn.symm
+  have hd : delItem (run empty ops).1 n' = .ok { (run empty ops).1 with
+      cache := ddel (normalize n') (run empty ops).1.cache, asList := ddel (normalize n') (run empty ops).1.asList } := by
+    unfold delItem
+    simp only [hk, hh, if_true]
+  obtain ⟨m', r'⟩ := delItem_related r n' _ hd
+  refine ⟨_, hd, ?_, ?_⟩
+  · intro hrep
+    have := reported_has r' n hrep
+    simp [dhas, hk, dget_ddel_same] at this
+  · intro hrep
+    have := reported_has r' n' hrep
+    simp [dhas, dget_ddel_same] at this
+
+/-- **Present ⇒ deletable, stated on the outputs of a run**: append `n in h`, `del h[n']`, `n in h`, `h[n]` to
+    any history (`n'` any spelling of `n`).  The four outputs are `True, None, False, KeyError` or
+    `False, KeyError, False, KeyError` — never `True` followed by a failing delete, and a deleted name is gone for
+    membership and for the (cached) read alike. -/
+theorem present_deletable_run (ops : List Op) (n n' : Str) (hn : n.map lowerC = n'.map lowerC) :
+    (run empty (ops ++ [.contains n, .del n', .contains n, .get n])).2
+        = (run empty ops).2 ++ [.bool true, .unit, .bool false, .err .keyError] ∨
+    (run empty (ops ++ [.contains n, .del n', .contains n, .get n])).2
+        = (run empty ops).2 ++ [.bool false, .err .keyError, .bool false, .err .keyError] := by
+  obtain ⟨_, r⟩ := run_refines R_empty ops
+  have hk : normalize n' = normalize n := (normalize_eq_iff_lower_eq _ _).2 hn.symm
+  rw [run_append]
+  simp only [List.append_cancel_left_eq]
+  cases hc : contains (run empty ops).1 n with
+  | true =>
+    left
+    obtain ⟨h', hd, hnr, _⟩ := reported_deletable ops n n' hn (Or.inl hc)
+    have h1 : contains h' n = false := by
+      cases hb : contains h' n with
+      | false => rfl
+      | true => exact (hnr (Or.inl hb)).elim
+    have h2 : getItem h' n = .error .keyError := by
+      cases hg : getItem h' n with
+      | ok p => exact (hnr (Or.inr (Or.inr (Or.inr (Or.inr ⟨p.1, p.2, hg⟩))))).elim
+      | error e => rw [getItem_err _ _ _ hg]
+    simp [run, step, hc, hd, h1, h2]
+  | false =>
+    right
+    have hd : delItem (run empty ops).1 n' = .error .keyError := by
+      unfold delItem
+      unfold contains at hc
+      simp [hk, hc]
+    have h2 : getItem (run empty ops).1 n = .error .keyError := by
+      cases hg : getItem (run empty ops).1 n with
+      | ok p =>
+        have := reported_has r n (Or.inr (Or.inr (Or.inr (Or.inr ⟨p.1, p.2, hg⟩))))
+        unfold contains at hc
+        rw [hc] at this
+        cases this
+      | error e => rw [getItem_err _ _ _ hg]
+    simp [run, step, hc, hd, h2]
+
+/-- the statement of `reported_deletable` discriminates: with the `__delitem__` of the code before the fix
+    (`del self._combined_cache[n]` first) it is FALSE on a reachable state — `add A 1; h["A"]; add a 2` leaves
+    `A` present with its cache entry dropped. -/
+theorem present_deletable_prefix_refuted :
+    ¬ (∀ (ops : List Op) (n : Str), contains (run empty ops).1 n = true →
+        ∃ h', delItemPreFix (run empty ops).1 n = .ok h') := by
+  intro hall
+  obtain ⟨h', hd⟩ := hall [Op.add [65] [49], Op.get [65], Op.add [97] [50]] [65] (by decide)
+  have : delItemPreFix (run empty [Op.add [65] [49], Op.get [65], Op.add [97] [50]]).1 [65] = .error .keyError := by
+    rfl
+  rw [this] at hd
+  cases hd
+
 /-- **Copy**: in every reachable state whose names/values are ones `add` accepts (they always are unless
     `__setitem__` stored something `add` would reject), the copy constructor succeeds and yields a map with
     exactly the same entries, in the same order.  (Independence of the two objects is an aliasing question the
@@ -105,6 +194,14 @@ example :
     let ops := [Op.add [65] [49], Op.get [65], Op.add [97] [50]]
     contains (run empty ops).1 [65] = true ∧ (run empty ops).1.cache = [] ∧
       (step (run empty ops).1 (.del [65])).2 = .unit := by decide
+
+/-! non-vacuity of `reported_deletable`: a reachable state where iteration and the cached read report the name
+    under the stored spelling, and another spelling is deleted -/
+example :
+    let h := (run empty [Op.add [97, 45, 98] [49], Op.get [65, 45, 66]]).1
+    [65, 45, 66] ∈ keys h ∧ h.cache ≠ [] ∧ Reported h [65, 45, 66] ∧
+      [65, 45, 66].map lowerC = [97, 45, 66].map lowerC := by
+  refine ⟨by decide, by decide, Or.inr (Or.inl (by decide)), by decide⟩
 
 /-! non-vacuity of `Valid`: a reachable multi-valued, multi-name state satisfies it -/
 example : Valid (run empty [Op.add [65] [49], Op.add [97] [50], Op.set [66, 45, 99] [51, 32, 52]]).1.asList := by
